@@ -49,15 +49,15 @@ Section Fault.
   Qed.
 
   (* a late subscriber's Subscribe(key), the command at f failing *)
-  Definition gjoin (f : option fpoint) (st : lsys) (v Dv : str) : lsys :=
+  Definition gjoin (f : option fpoint) (st : lsys) (v Dv : str) (orc : option op) : lsys :=
     let b := l_base st in
-    if existsb (fun c => str_eqb (pc_cuid c) v) (ps_cl b) then st else
+    if existsb (fun c => str_eqb (pc_cuid c) v) (ps_cl b) || negb (own_snapshot v orc) then st else
     match find_dt (ps_db b) D with
     | Some d0 =>
         match alookup str_eqb v (dd_rw d0) with
         | Some _ => st
         | None =>
-            let req := mkPpp key Dv bit_subscribe (mkCp 0 0) ty [] None in
+            let req := join_req key ty Dv orc in
             let '(db', resp, _) := handle_pack_f f (ps_db b) colname col v req in
             match p_err resp with
             | Some _ => mkLs (mkPs db' (ps_cl b)) (l_fly st)
@@ -79,13 +79,13 @@ Section Fault.
     | JBase (LBase (PSync i lost)) =>
         let '(b', a) := gsync f (l_base st) i lost in
         mkLs b' (match a with Some r => add_fly (l_fly st) i r | None => l_fly st end)
-    | JJoin v Dv => gjoin f st v Dv
+    | JJoin v Dv orc => gjoin f st v Dv orc
     | _ => jstep' st ev
     end.
 
   Lemma gstep_none st ev : gstep None st ev = jstep' st ev.
   Proof.
-    destruct ev as [[[i o|i lost]|i j]|v Dv]; try reflexivity.
+    destruct ev as [[[i o|i lost]|i j]|v Dv orc]; try reflexivity.
     cbn [gstep jstep lstep]. rewrite gsync_none. reflexivity.
   Qed.
 
@@ -102,7 +102,7 @@ Section Fault.
     ((f <> None /\ cl (gstep f st ev) = cl st) \/ cl (gstep f st ev) = jstep' (cl st) ev).
   Proof.
     intros Hw. destruct st as [[db cls] fly]. unfold dbof in *. cbn [l_base ps_db] in Hw.
-    destruct ev as [[[i o|i lost]|i j]|v Dv].
+    destruct ev as [[[i o|i lost]|i j]|v Dv orc].
     - (* a local operation *)
       unfold cl. cbn [gstep jstep lstep pstep l_base ps_cl ps_db l_fly]. destruct (nth_error cls i) as [c|]; [|split; [exact Hw|right; reflexivity]].
       destruct (_ && _); (split; [exact Hw|right; reflexivity]).
@@ -130,11 +130,11 @@ Section Fault.
       destruct (incoming _ _ _ _); (split; [exact Hw|right; reflexivity]).
     - (* a late subscriber *)
       unfold cl. cbn [gstep jstep]. unfold gjoin. cbn [l_base ps_cl ps_db l_fly].
-      destruct (existsb _ cls); [split; [exact Hw|right; reflexivity]|].
+      destruct (existsb _ cls || negb (own_snapshot v orc)); [split; [exact Hw|right; reflexivity]|].
       change (find_dt (clean db) D) with (find_dt db D).
       destruct (find_dt db D) as [d0|]; [|split; [exact Hw|right; reflexivity]].
       destruct (alookup str_eqb v (dd_rw d0)); [split; [exact Hw|right; reflexivity]|].
-      pose proof (pack_erased f db colname col v (mkPpp key Dv bit_subscribe (mkCp 0 0) ty [] None) Hw) as E. unfold handle_pack in E.
+      pose proof (pack_erased f db colname col v (join_req key ty Dv orc) Hw) as E. unfold handle_pack in E.
       destruct (handle_pack_f f db colname col v _) as [[db' resp] pubs].
       destruct E as [Hw' [_ [[Hf [Herr [_ Hc]]]|E]]].
       + destruct (p_err resp) as [code|]; [|congruence]. cbn [l_base ps_db]. split; [exact Hw'|]. left. split; [exact Hf|].
